@@ -39,6 +39,13 @@ STATES = {
     # established with a DIMSE message half received (first fragment of a multi-fragment C-STORE-RQ)
     60: (True, [('peer', RQ, 0), ('user', AC_PDU, 1), ('peer', P_STORE_FIRST, 1)], 1, 1, True),
 }
+_RELRQ, _RELRP = pdu.AReleaseRqPDU().encode(), pdu.AReleaseRpPDU().encode()
+# release states: peer asked for release (8), release collision on the acceptor (10, 12) and requestor side (9, 11)
+STATES[8] = (True, STATES[6][1] + [('peer', _RELRQ, 1)], 1, 1, True)
+STATES[10] = (True, STATES[7][1] + [('peer', _RELRQ, 2)], 2, 2, True)
+STATES[12] = (True, STATES[10][1] + [('peer', _RELRP, 2)], 2, 2, True)
+STATES[9] = (False, [('user', RQ_PDU, 0), ('peer', AC, 1), ('user', pdu.AReleaseRqPDU(), 1), ('peer', _RELRQ, 2)], 2, 2, True)
+STATES[11] = (False, STATES[9][1] + [('user', pdu.AReleaseRpPDU(), 2)], 3, 3, True)
 NATURAL = {1: 2, 2: 5, 3: 5, 4: 6, 5: 6, 6: 7, 7: 6}
 
 
@@ -73,14 +80,14 @@ def aborted(state, conv, tr):
     if out is None or len(out) != 1 or out[0]['type'] != 7:
         return False
     inds = [i[1] for i in tr.indications if i[0] == 'pdu']
-    if state in (3, 5, 6, 7, 60):
+    if state in (3, 5, 6, 7, 60, 8, 9, 10, 11, 12):
         return len(inds) >= 1 and inds[-1] == 7
     return 7 not in inds
 
 
-@cond(bounds='every waiting state (2, 3, 5, 6, 7, 13, and 6 with a half-received DIMSE message; one instance each): a PDU whose type byte is symbolic over all '
+@cond(bounds='every waiting state (2, 3, 5, 6, 7, 13, 6 with a half-received DIMSE message, and the release / release-collision states 8, 9, 10, 11, 12; one instance each): a PDU whose type byte is symbolic over all '
              'unrecognised values (0, 8..255), with a symbolic reserved byte and a body of 0..6 bytes (symbolic length)',
-      family={'state': [2, 3, 5, 6, 7, 13, 60]}, timeout=180)
+      family={'state': [2, 3, 5, 6, 7, 13, 60, 8, 9, 10, 11, 12]}, timeout=180)
 def unknown_type(t: int, r: int, n: int) -> bool:
     """
     pre: (t == 0 or 8 <= t <= 255) and 0 <= r <= 255 and 0 <= n <= 6
@@ -240,8 +247,8 @@ def raw_body(data: bytes, r: int) -> bool:
     return ok
 
 
-@cond(bounds='every valid PDU kind in every waiting state incl. mid-message (49 concrete combinations), followed by the peer closing',
-      family=[dict(kind=k, state=s) for k in range(1, 8) for s in (2, 3, 5, 6, 7, 13, 60)], timeout=120)
+@cond(bounds='every valid PDU kind in every waiting state incl. mid-message and the release-collision states (84 concrete combinations), followed by the peer closing',
+      family=[dict(kind=k, state=s) for k in range(1, 8) for s in (2, 3, 5, 6, 7, 13, 60, 8, 9, 10, 11, 12)], timeout=120)
 def any_pdu_any_state(x: int) -> bool:
     """
     pre: x == 0
